@@ -17,7 +17,8 @@ import (
 // the methods each mode calls on the real objects (Interface.Method)
 var modeCalls = map[string][]string{
 	"c02": {
-		"Tree.Insert", "Tree.Remove", "Tree.Get", "Tree.Commit", "Tree.Close", "Tree.ApplyWriteLog",
+		"Tree.Insert", "Tree.Remove", "Tree.Get", "Tree.Commit", "Tree.CommitKnown", "Tree.Close", "Tree.ApplyWriteLog", "Tree.NewIterator",
+		"Iterator.Valid", "Iterator.Err", "Iterator.Seek", "Iterator.Next", "Iterator.Key", "Iterator.Value", "Iterator.Close",
 	},
 	"c03": {
 		"Tree.Insert", "Tree.Remove", "Tree.RemoveExisting", "Tree.Get", "Tree.NewIterator", "Tree.Commit", "Tree.Close",
@@ -30,7 +31,7 @@ var modeCalls = map[string][]string{
 
 // package-level constructors / options used (not interface methods; listed for information)
 var modeFuncs = map[string][]string{
-	"c02":  {"New", "NewWithRoot", "Capacity", "VerifDump", "VerifScan"},
+	"c02":  {"New", "NewWithRoot", "Capacity", "WithoutWriteLog", "NoPersist", "VerifDump", "VerifScan"},
 	"c03":  {"New", "NewWithRoot", "Capacity", "WithoutWriteLog", "NewOverlay", "VerifScan"},
 	"keys": {},
 }
